@@ -384,14 +384,33 @@ impl Worker {
         r
     }
 
+    /// `=k` as an argument: the very same object as argument `k` (bound once, passed twice)
     fn call_text(req: &[&str]) -> Option<String> {
+        let shared: Vec<usize> =
+            req[1..].iter().filter_map(|t| t.strip_prefix('=').and_then(|k| k.parse().ok())).collect();
+        let mut binds = String::new();
         let mut text = format!("({}", req[0]);
-        for t in &req[1..] {
+        for (i, t) in req[1..].iter().enumerate() {
             text.push(' ');
-            text.push_str(pal(t)?.scm);
+            if let Some(k) = t.strip_prefix('=') {
+                let k: usize = k.parse().ok()?;
+                if k >= i {
+                    return None;
+                }
+                text.push_str(&format!("zq-shared-{}", k));
+            } else if shared.contains(&i) {
+                binds.push_str(&format!("(zq-shared-{} {})", i, pal(t)?.scm));
+                text.push_str(&format!("zq-shared-{}", i));
+            } else {
+                text.push_str(pal(t)?.scm);
+            }
         }
         text.push(')');
-        Some(text)
+        if binds.is_empty() {
+            Some(text)
+        } else {
+            Some(format!("(let ({}) {})", binds, text))
+        }
     }
 
     fn handle(&mut self, request: &str) -> String {
@@ -820,6 +839,75 @@ fn builtin_requests(tier: &str, seed: u64) -> Vec<String> {
                 for &d in &circ {
                     push(&mut out, name, &[c, d]);
                 }
+            }
+        }
+        // shared containers: the SAME object at two argument positions (arity 2..5), other positions sampled
+        let containers: Vec<usize> = noncirc
+            .iter()
+            .copied()
+            .filter(|i| matches!(PALETTE[*i].kind, K::Str | K::List | K::Vec))
+            .collect();
+        // procedures that accept containers: every pair of positions x every container of an accepted kind, the
+        // other positions from the accepted kinds (so that validation passes and the work on the two aliases is
+        // reached); all procedures: a few random ones
+        let aff_containers: Vec<usize> = aff.iter().copied().filter(|i| containers.contains(i)).collect();
+        let small: Vec<usize> =
+            (0..PALETTE.len()).filter(|i| ["0", "1", "2", "3"].contains(&PALETTE[*i].tok)).collect();
+        let mut plans: Vec<(usize, usize, usize, Option<usize>)> = vec![];
+        for arity in 2..=(if quick { 4usize } else { 5 }) {
+            for a in 0..arity {
+                for b in (a + 1)..arity {
+                    for &c in &aff_containers {
+                        for _ in 0..(if quick { 2 } else { 6 }) {
+                            plans.push((arity, a, b, Some(c)));
+                        }
+                    }
+                }
+            }
+            for _ in 0..(if quick { 4 } else { 40 }) {
+                let a = rng.below(arity as u64) as usize;
+                let mut b = rng.below(arity as u64) as usize;
+                if a == b {
+                    b = (a + 1) % arity;
+                }
+                plans.push((arity, a.min(b), a.max(b), None));
+            }
+        }
+        for (arity, a, b, fixed) in plans {
+            {
+                let idx: Vec<usize> = (0..arity)
+                    .map(|k| {
+                        if k == a {
+                            match fixed {
+                                Some(c) => c,
+                                None => {
+                                    if rng.chance(3, 4) { *rng.pick(&containers) } else { *rng.pick(&aff) }
+                                }
+                            }
+                        } else if fixed.is_some() && rng.chance(1, 2) {
+                            // small indices: ranges that pass validation, so that the work on the aliases is reached
+                            *rng.pick(&small)
+                        } else if fixed.is_some() || rng.chance(3, 5) {
+                            *rng.pick(&aff)
+                        } else {
+                            *rng.pick(&noncirc)
+                        }
+                    })
+                    .collect();
+                let args: Vec<&P> = idx.iter().map(|i| &PALETTE[*i]).collect();
+                if out_of_scope(name, &args) || args.iter().any(|q| q.kind == K::Circ) {
+                    continue;
+                }
+                let mut r = format!("call {}", name);
+                for (k, q) in args.iter().enumerate() {
+                    r.push(' ');
+                    if k == b {
+                        r.push_str(&format!("={}", a));
+                    } else {
+                        r.push_str(q.tok);
+                    }
+                }
+                out.push(r);
             }
         }
         // arity 3..5: sampled, biased to the kinds the procedure accepts
